@@ -22,6 +22,7 @@ import Harper.Props.C03e
 -/
 namespace Harper.C12
 open Harper Harper.Chunks Harper.Rules Harper.Leaves Harper.Rules2
+open Harper.C02 (asciiCls)
 
 /-! ## locality of each modelled rule's piece / token / window function -/
 
@@ -73,12 +74,47 @@ theorem inflectedVerbAfterTo_appends (env : Env) : Appends (ruleInflectedVerbAft
 
 /-! ## end to end: from the characters of `P` and `D` -/
 
+/-- `ParagraphPair` for the ASCII class table and no url / e-mail / hostname lexer: three decidable conditions on the two
+texts are left (the hypothesis of the thirteen theorems below does not mention the rule) -/
+theorem paragraphPair_ascii_noExt_r2 (P0 D : List Char) (h1 : NoNlEnd P0) (h2 : D.head? ≠ some '\n')
+    (h3 : NoQuoteChars (P0 ++ List.replicate 2 '\n')) : ParagraphPair asciiCls P0 D 2 noExt noExt noExt where
+  cls_ok := ⟨by decide, by decide, by
+    intro c h
+    simp only [asciiCls, isAsciiDigit, Bool.and_eq_true, decide_eq_true_eq] at h
+    refine ⟨?_, ?_, ?_⟩
+    · simp only [isAsciiAlpha, Bool.or_eq_false_iff, Bool.and_eq_false_imp, decide_eq_true_eq, decide_eq_false_iff_not]
+      constructor <;> intro h3 <;> intro h4
+      · exact absurd (Char.le_trans h3 h.2) (by decide)
+      · exact absurd (Char.le_trans h3 h.2) (by decide)
+    · intro hc; subst hc; exact absurd h.1 (by decide)
+    · intro hc; subst hc; exact absurd h.1 (by decide)⟩
+  two := Nat.le_refl 2
+  no_nl_end := h1
+  d_head := h2
+  no_quotes := h3
+  ext_local := ⟨fun _ _ => rfl, fun _ => rfl⟩
+  ext_ok_p := by intro _ _ _ h; cases h
+  ext_ok_d := by intro _ _ _ h; cases h
+  ext_no_nl := by intro _ _ _ h; cases h
+
+/-- non-vacuity of the thirteen `<rule>_paragraphs_separately`: pairs of texts that are `ParagraphPair`s (the lints of each
+rule on such pairs, in both paragraphs: after each theorem, on the tokens; from the characters: the end of this file) -/
+example : ParagraphPair asciiCls ['i', ' ', 'a', 't', 'e', ' ', '9', '.'] ['i', ' ', 'a', 't', 'e', ' ', '9', '.'] 2 noExt noExt noExt ∧
+    ParagraphPair asciiCls ['b', 'i', 'g', ' ', 'o', 'f', ' ', 'a'] ['b', 'i', 'g', ' ', ' ', 'o', 'f', ' ', 'a', 'n', ' ', 'x'] 2 noExt noExt noExt :=
+  ⟨paragraphPair_ascii_noExt_r2 _ _ (by decide) (by decide) (by decide), paragraphPair_ascii_noExt_r2 _ _ (by decide) (by decide) (by decide)⟩
+
 theorem spelledNumbers_paragraphs_separately (env : Env) (cls : Cls) (P0 D : List Char) (k : Nat)
     (extP extD extPD : Ext) (h : ParagraphPair cls P0 D k extP extD extPD) :
     docRule cls extPD (ruleSpelledNumbers env) ((P0 ++ List.replicate k '\n') ++ D) =
       joinE (P0 ++ List.replicate k '\n').length (docRule cls extP (ruleSpelledNumbers env) (P0 ++ List.replicate k '\n'))
         (docRule cls extD (ruleSpelledNumbers env) D) :=
   separately_of_appends _ (spelledNumbers_appends env) cls P0 D k extP extD extPD h
+/-- `SpelledNumbers` fires in both paragraphs: tokens tiling `i ate 9.¶¶` (the last one the `ParagraphBreak`) and `i ate 9.`, the second list moved by 10 — the premises of `Appends` hold -/
+example : (∀ t ∈ [⟨⟨0, 1⟩, .word⟩, ⟨⟨1, 2⟩, .space 1⟩, ⟨⟨2, 5⟩, .word⟩, ⟨⟨5, 6⟩, .space 1⟩, ⟨⟨6, 7⟩, .number 10 none⟩, ⟨⟨7, 8⟩, .punct .Period⟩, ⟨⟨8, 10⟩, .paragraphBreak⟩], tokOK t = true ∧ t.span.stop ≤ 10) ∧
+    (∀ t ∈ [⟨⟨0, 1⟩, .word⟩, ⟨⟨1, 2⟩, .space 1⟩, ⟨⟨2, 5⟩, .word⟩, ⟨⟨5, 6⟩, .space 1⟩, ⟨⟨6, 7⟩, .number 10 none⟩, ⟨⟨7, 8⟩, .punct .Period⟩], tokOK t = true) ∧
+    ruleSpelledNumbers ({ env0 with numVal := fun _ => .int 9 }) ((['i', ' ', 'a', 't', 'e', ' ', '9', '.'] ++ ['\n', '\n']) ++ ['i', ' ', 'a', 't', 'e', ' ', '9', '.'])
+      ([⟨⟨0, 1⟩, .word⟩, ⟨⟨1, 2⟩, .space 1⟩, ⟨⟨2, 5⟩, .word⟩, ⟨⟨5, 6⟩, .space 1⟩, ⟨⟨6, 7⟩, .number 10 none⟩, ⟨⟨7, 8⟩, .punct .Period⟩, ⟨⟨8, 10⟩, .paragraphBreak⟩] ++ shiftDoc 10 7 [⟨⟨0, 1⟩, .word⟩, ⟨⟨1, 2⟩, .space 1⟩, ⟨⟨2, 5⟩, .word⟩, ⟨⟨5, 6⟩, .space 1⟩, ⟨⟨6, 7⟩, .number 10 none⟩, ⟨⟨7, 8⟩, .punct .Period⟩]) =
+      .ok [⟨⟨6, 7⟩, [.replaceWith ['n', 'i', 'n', 'e']], 21, 0⟩, ⟨⟨16, 17⟩, [.replaceWith ['n', 'i', 'n', 'e']], 21, 0⟩] := by decide
 
 theorem capitalizePersonalPronouns_paragraphs_separately (env : Env) (cls : Cls) (P0 D : List Char) (k : Nat)
     (extP extD extPD : Ext) (h : ParagraphPair cls P0 D k extP extD extPD) :
@@ -86,6 +122,12 @@ theorem capitalizePersonalPronouns_paragraphs_separately (env : Env) (cls : Cls)
       joinE (P0 ++ List.replicate k '\n').length (docRule cls extP (ruleCapitalizePersonalPronouns env) (P0 ++ List.replicate k '\n'))
         (docRule cls extD (ruleCapitalizePersonalPronouns env) D) :=
   separately_of_appends _ (capitalizePersonalPronouns_appends env) cls P0 D k extP extD extPD h
+/-- `CapitalizePersonalPronouns` fires in both paragraphs: tokens tiling `i ate 9.¶¶` (the last one the `ParagraphBreak`) and `i ate 9.`, the second list moved by 10 — the premises of `Appends` hold -/
+example : (∀ t ∈ [⟨⟨0, 1⟩, .word⟩, ⟨⟨1, 2⟩, .space 1⟩, ⟨⟨2, 5⟩, .word⟩, ⟨⟨5, 6⟩, .space 1⟩, ⟨⟨6, 7⟩, .number 10 none⟩, ⟨⟨7, 8⟩, .punct .Period⟩, ⟨⟨8, 10⟩, .paragraphBreak⟩], tokOK t = true ∧ t.span.stop ≤ 10) ∧
+    (∀ t ∈ [⟨⟨0, 1⟩, .word⟩, ⟨⟨1, 2⟩, .space 1⟩, ⟨⟨2, 5⟩, .word⟩, ⟨⟨5, 6⟩, .space 1⟩, ⟨⟨6, 7⟩, .number 10 none⟩, ⟨⟨7, 8⟩, .punct .Period⟩], tokOK t = true) ∧
+    ruleCapitalizePersonalPronouns (env0) ((['i', ' ', 'a', 't', 'e', ' ', '9', '.'] ++ ['\n', '\n']) ++ ['i', ' ', 'a', 't', 'e', ' ', '9', '.'])
+      ([⟨⟨0, 1⟩, .word⟩, ⟨⟨1, 2⟩, .space 1⟩, ⟨⟨2, 5⟩, .word⟩, ⟨⟨5, 6⟩, .space 1⟩, ⟨⟨6, 7⟩, .number 10 none⟩, ⟨⟨7, 8⟩, .punct .Period⟩, ⟨⟨8, 10⟩, .paragraphBreak⟩] ++ shiftDoc 10 7 [⟨⟨0, 1⟩, .word⟩, ⟨⟨1, 2⟩, .space 1⟩, ⟨⟨2, 5⟩, .word⟩, ⟨⟨5, 6⟩, .space 1⟩, ⟨⟨6, 7⟩, .number 10 none⟩, ⟨⟨7, 8⟩, .punct .Period⟩]) =
+      .ok [⟨⟨0, 1⟩, [.replaceWith ['I']], 22, 0⟩, ⟨⟨10, 11⟩, [.replaceWith ['I']], 22, 0⟩] := by decide
 
 theorem avoidCurses_paragraphs_separately (env : Env) (cls : Cls) (P0 D : List Char) (k : Nat)
     (extP extD extPD : Ext) (h : ParagraphPair cls P0 D k extP extD extPD) :
@@ -93,6 +135,12 @@ theorem avoidCurses_paragraphs_separately (env : Env) (cls : Cls) (P0 D : List C
       joinE (P0 ++ List.replicate k '\n').length (docRule cls extP (ruleAvoidCurses env) (P0 ++ List.replicate k '\n'))
         (docRule cls extD (ruleAvoidCurses env) D) :=
   separately_of_appends _ (avoidCurses_appends env) cls P0 D k extP extD extPD h
+/-- `AvoidCurses` fires in both paragraphs: tokens tiling `damn it.¶¶` (the last one the `ParagraphBreak`) and `damn it`, the second list moved by 10 — the premises of `Appends` hold -/
+example : (∀ t ∈ [⟨⟨0, 4⟩, .word⟩, ⟨⟨4, 5⟩, .space 1⟩, ⟨⟨5, 7⟩, .word⟩, ⟨⟨7, 8⟩, .punct .Period⟩, ⟨⟨8, 10⟩, .paragraphBreak⟩], tokOK t = true ∧ t.span.stop ≤ 10) ∧
+    (∀ t ∈ [⟨⟨0, 4⟩, .word⟩, ⟨⟨4, 5⟩, .space 1⟩, ⟨⟨5, 7⟩, .word⟩], tokOK t = true) ∧
+    ruleAvoidCurses ({ env0 with wordFlags := fun w => if w == ['d', 'a', 'm', 'n'] then 262144 else 0 }) ((['d', 'a', 'm', 'n', ' ', 'i', 't', '.'] ++ ['\n', '\n']) ++ ['d', 'a', 'm', 'n', ' ', 'i', 't'])
+      ([⟨⟨0, 4⟩, .word⟩, ⟨⟨4, 5⟩, .space 1⟩, ⟨⟨5, 7⟩, .word⟩, ⟨⟨7, 8⟩, .punct .Period⟩, ⟨⟨8, 10⟩, .paragraphBreak⟩] ++ shiftDoc 10 5 [⟨⟨0, 4⟩, .word⟩, ⟨⟨4, 5⟩, .space 1⟩, ⟨⟨5, 7⟩, .word⟩]) =
+      .ok [⟨⟨0, 4⟩, [], 23, 0⟩, ⟨⟨10, 14⟩, [], 23, 0⟩] := by decide
 
 theorem wordPressDotcom_paragraphs_separately (env : Env) (cls : Cls) (P0 D : List Char) (k : Nat)
     (extP extD extPD : Ext) (h : ParagraphPair cls P0 D k extP extD extPD) :
@@ -100,6 +148,12 @@ theorem wordPressDotcom_paragraphs_separately (env : Env) (cls : Cls) (P0 D : Li
       joinE (P0 ++ List.replicate k '\n').length (docRule cls extP (ruleWordPressDotcom env) (P0 ++ List.replicate k '\n'))
         (docRule cls extD (ruleWordPressDotcom env) D) :=
   separately_of_appends _ (wordPressDotcom_appends env) cls P0 D k extP extD extPD h
+/-- `WordPressDotcom` fires in both paragraphs: tokens tiling `wordpress.com.¶¶` (the last one the `ParagraphBreak`) and `wordpress.com`, the second list moved by 16 — the premises of `Appends` hold -/
+example : (∀ t ∈ [⟨⟨0, 13⟩, .hostname⟩, ⟨⟨13, 14⟩, .punct .Period⟩, ⟨⟨14, 16⟩, .paragraphBreak⟩], tokOK t = true ∧ t.span.stop ≤ 16) ∧
+    (∀ t ∈ [⟨⟨0, 13⟩, .hostname⟩], tokOK t = true) ∧
+    ruleWordPressDotcom (env0) ((['w', 'o', 'r', 'd', 'p', 'r', 'e', 's', 's', '.', 'c', 'o', 'm', '.'] ++ ['\n', '\n']) ++ ['w', 'o', 'r', 'd', 'p', 'r', 'e', 's', 's', '.', 'c', 'o', 'm'])
+      ([⟨⟨0, 13⟩, .hostname⟩, ⟨⟨13, 14⟩, .punct .Period⟩, ⟨⟨14, 16⟩, .paragraphBreak⟩] ++ shiftDoc 16 3 [⟨⟨0, 13⟩, .hostname⟩]) =
+      .ok [⟨⟨0, 13⟩, [.replaceWith ['W', 'o', 'r', 'd', 'P', 'r', 'e', 's', 's', '.', 'c', 'o', 'm']], 24, 0⟩, ⟨⟨16, 29⟩, [.replaceWith ['W', 'o', 'r', 'd', 'P', 'r', 'e', 's', 's', '.', 'c', 'o', 'm']], 24, 0⟩] := by decide
 
 theorem linkingVerbs_paragraphs_separately (env : Env) (cls : Cls) (P0 D : List Char) (k : Nat)
     (extP extD extPD : Ext) (h : ParagraphPair cls P0 D k extP extD extPD) :
@@ -107,6 +161,12 @@ theorem linkingVerbs_paragraphs_separately (env : Env) (cls : Cls) (P0 D : List 
       joinE (P0 ++ List.replicate k '\n').length (docRule cls extP (ruleLinkingVerbs env) (P0 ++ List.replicate k '\n'))
         (docRule cls extD (ruleLinkingVerbs env) D) :=
   separately_of_appends _ (linkingVerbs_appends env) cls P0 D k extP extD extPD h
+/-- `LinkingVerbs` fires in both paragraphs: tokens tiling `quick is.¶¶` (the last one the `ParagraphBreak`) and `quick is`, the second list moved by 11 — the premises of `Appends` hold -/
+example : (∀ t ∈ [⟨⟨0, 5⟩, .word⟩, ⟨⟨5, 6⟩, .space 1⟩, ⟨⟨6, 8⟩, .word⟩, ⟨⟨8, 9⟩, .punct .Period⟩, ⟨⟨9, 11⟩, .paragraphBreak⟩], tokOK t = true ∧ t.span.stop ≤ 11) ∧
+    (∀ t ∈ [⟨⟨0, 5⟩, .word⟩, ⟨⟨5, 6⟩, .space 1⟩, ⟨⟨6, 8⟩, .word⟩], tokOK t = true) ∧
+    ruleLinkingVerbs ({ env0 with wordFlags := fun w => if w == ['q', 'u', 'i', 'c', 'k'] then 32768 else if w == ['i', 's'] then 2048 else 0 }) ((['q', 'u', 'i', 'c', 'k', ' ', 'i', 's', '.'] ++ ['\n', '\n']) ++ ['q', 'u', 'i', 'c', 'k', ' ', 'i', 's'])
+      ([⟨⟨0, 5⟩, .word⟩, ⟨⟨5, 6⟩, .space 1⟩, ⟨⟨6, 8⟩, .word⟩, ⟨⟨8, 9⟩, .punct .Period⟩, ⟨⟨9, 11⟩, .paragraphBreak⟩] ++ shiftDoc 11 5 [⟨⟨0, 5⟩, .word⟩, ⟨⟨5, 6⟩, .space 1⟩, ⟨⟨6, 8⟩, .word⟩]) =
+      .ok [⟨⟨6, 8⟩, [], 25, 0⟩, ⟨⟨17, 19⟩, [], 25, 0⟩] := by decide
 
 /-- **CommaFixes, although it indexes the whole document** -/
 theorem commaFixes_paragraphs_separately (env : Env) (cls : Cls) (P0 D : List Char) (k : Nat)
@@ -115,6 +175,12 @@ theorem commaFixes_paragraphs_separately (env : Env) (cls : Cls) (P0 D : List Ch
       joinE (P0 ++ List.replicate k '\n').length (docRule cls extP (ruleCommaFixes env) (P0 ++ List.replicate k '\n'))
         (docRule cls extD (ruleCommaFixes env) D) :=
   separately_of_appends _ (commaFixes_appends env) cls P0 D k extP extD extPD h
+/-- `CommaFixes` fires in both paragraphs: tokens tiling `foo ,bar.¶¶` (the last one the `ParagraphBreak`) and `foo ,bar`, the second list moved by 11 — the premises of `Appends` hold -/
+example : (∀ t ∈ [⟨⟨0, 3⟩, .word⟩, ⟨⟨3, 4⟩, .space 1⟩, ⟨⟨4, 5⟩, .punct .Comma⟩, ⟨⟨5, 8⟩, .word⟩, ⟨⟨8, 9⟩, .punct .Period⟩, ⟨⟨9, 11⟩, .paragraphBreak⟩], tokOK t = true ∧ t.span.stop ≤ 11) ∧
+    (∀ t ∈ [⟨⟨0, 3⟩, .word⟩, ⟨⟨3, 4⟩, .space 1⟩, ⟨⟨4, 5⟩, .punct .Comma⟩, ⟨⟨5, 8⟩, .word⟩], tokOK t = true) ∧
+    ruleCommaFixes (env0) ((['f', 'o', 'o', ' ', ',', 'b', 'a', 'r', '.'] ++ ['\n', '\n']) ++ ['f', 'o', 'o', ' ', ',', 'b', 'a', 'r'])
+      ([⟨⟨0, 3⟩, .word⟩, ⟨⟨3, 4⟩, .space 1⟩, ⟨⟨4, 5⟩, .punct .Comma⟩, ⟨⟨5, 8⟩, .word⟩, ⟨⟨8, 9⟩, .punct .Period⟩, ⟨⟨9, 11⟩, .paragraphBreak⟩] ++ shiftDoc 11 6 [⟨⟨0, 3⟩, .word⟩, ⟨⟨3, 4⟩, .space 1⟩, ⟨⟨4, 5⟩, .punct .Comma⟩, ⟨⟨5, 8⟩, .word⟩]) =
+      .ok [⟨⟨3, 5⟩, [.replaceWith [',', ' ']], 26, 5⟩, ⟨⟨14, 16⟩, [.replaceWith [',', ' ']], 26, 5⟩] := by decide
 
 theorem mergeWords_paragraphs_separately (env : Env) (cls : Cls) (P0 D : List Char) (k : Nat)
     (extP extD extPD : Ext) (h : ParagraphPair cls P0 D k extP extD extPD) :
@@ -122,6 +188,12 @@ theorem mergeWords_paragraphs_separately (env : Env) (cls : Cls) (P0 D : List Ch
       joinE (P0 ++ List.replicate k '\n').length (docRule cls extP (ruleMergeWords env) (P0 ++ List.replicate k '\n'))
         (docRule cls extD (ruleMergeWords env) D) :=
   separately_of_appends _ (mergeWords_appends env) cls P0 D k extP extD extPD h
+/-- `MergeWords` fires in both paragraphs: tokens tiling `The refore.¶¶` (the last one the `ParagraphBreak`) and `The refore`, the second list moved by 13 — the premises of `Appends` hold -/
+example : (∀ t ∈ [⟨⟨0, 3⟩, .word⟩, ⟨⟨3, 4⟩, .space 1⟩, ⟨⟨4, 10⟩, .word⟩, ⟨⟨10, 11⟩, .punct .Period⟩, ⟨⟨11, 13⟩, .paragraphBreak⟩], tokOK t = true ∧ t.span.stop ≤ 13) ∧
+    (∀ t ∈ [⟨⟨0, 3⟩, .word⟩, ⟨⟨3, 4⟩, .space 1⟩, ⟨⟨4, 10⟩, .word⟩], tokOK t = true) ∧
+    ruleMergeWords ({ env0 with wordFlags := fun w => if w == ['T', 'h', 'e', 'r', 'e', 'f', 'o', 'r', 'e'] then 524288 else 0 }) ((['T', 'h', 'e', ' ', 'r', 'e', 'f', 'o', 'r', 'e', '.'] ++ ['\n', '\n']) ++ ['T', 'h', 'e', ' ', 'r', 'e', 'f', 'o', 'r', 'e'])
+      ([⟨⟨0, 3⟩, .word⟩, ⟨⟨3, 4⟩, .space 1⟩, ⟨⟨4, 10⟩, .word⟩, ⟨⟨10, 11⟩, .punct .Period⟩, ⟨⟨11, 13⟩, .paragraphBreak⟩] ++ shiftDoc 13 5 [⟨⟨0, 3⟩, .word⟩, ⟨⟨3, 4⟩, .space 1⟩, ⟨⟨4, 10⟩, .word⟩]) =
+      .ok [⟨⟨0, 10⟩, [.replaceWith ['T', 'h', 'e', 'r', 'e', 'f', 'o', 'r', 'e']], 27, 0⟩, ⟨⟨13, 23⟩, [.replaceWith ['T', 'h', 'e', 'r', 'e', 'f', 'o', 'r', 'e']], 27, 0⟩] := by decide
 
 theorem adjectiveOfA_paragraphs_separately (env : Env) (cls : Cls) (P0 D : List Char) (k : Nat)
     (extP extD extPD : Ext) (h : ParagraphPair cls P0 D k extP extD extPD) :
@@ -129,6 +201,12 @@ theorem adjectiveOfA_paragraphs_separately (env : Env) (cls : Cls) (P0 D : List 
       joinE (P0 ++ List.replicate k '\n').length (docRule cls extP (ruleAdjectiveOfA env) (P0 ++ List.replicate k '\n'))
         (docRule cls extD (ruleAdjectiveOfA env) D) :=
   separately_of_appends _ (adjectiveOfA_appends env) cls P0 D k extP extD extPD h
+/-- `AdjectiveOfA` fires in both paragraphs: tokens tiling `big  of a x.¶¶` (the last one the `ParagraphBreak`) and `big  of a`, the second list moved by 14 — the premises of `Appends` hold -/
+example : (∀ t ∈ [⟨⟨0, 3⟩, .word⟩, ⟨⟨3, 5⟩, .space 2⟩, ⟨⟨5, 7⟩, .word⟩, ⟨⟨7, 8⟩, .space 1⟩, ⟨⟨8, 9⟩, .word⟩, ⟨⟨9, 10⟩, .space 1⟩, ⟨⟨10, 12⟩, .word⟩, ⟨⟨12, 14⟩, .paragraphBreak⟩], tokOK t = true ∧ t.span.stop ≤ 14) ∧
+    (∀ t ∈ [⟨⟨0, 3⟩, .word⟩, ⟨⟨3, 5⟩, .space 2⟩, ⟨⟨5, 7⟩, .word⟩, ⟨⟨7, 8⟩, .space 1⟩, ⟨⟨8, 9⟩, .word⟩], tokOK t = true) ∧
+    ruleAdjectiveOfA ({ env0 with wordFlags := fun w => if w == ['b', 'i', 'g'] then 32776 else 0 }) ((['b', 'i', 'g', ' ', ' ', 'o', 'f', ' ', 'a', ' ', 'x', '.'] ++ ['\n', '\n']) ++ ['b', 'i', 'g', ' ', ' ', 'o', 'f', ' ', 'a'])
+      ([⟨⟨0, 3⟩, .word⟩, ⟨⟨3, 5⟩, .space 2⟩, ⟨⟨5, 7⟩, .word⟩, ⟨⟨7, 8⟩, .space 1⟩, ⟨⟨8, 9⟩, .word⟩, ⟨⟨9, 10⟩, .space 1⟩, ⟨⟨10, 12⟩, .word⟩, ⟨⟨12, 14⟩, .paragraphBreak⟩] ++ shiftDoc 14 8 [⟨⟨0, 3⟩, .word⟩, ⟨⟨3, 5⟩, .space 2⟩, ⟨⟨5, 7⟩, .word⟩, ⟨⟨7, 8⟩, .space 1⟩, ⟨⟨8, 9⟩, .word⟩]) =
+      .ok [⟨⟨0, 9⟩, [.replaceWith ['b', 'i', 'g', ' ', ' ', 'a'], .replaceWith ['b', 'i', 'g', ' ', 'a']], 31, 0⟩, ⟨⟨14, 23⟩, [.replaceWith ['b', 'i', 'g', ' ', ' ', 'a'], .replaceWith ['b', 'i', 'g', ' ', 'a']], 31, 0⟩] := by decide
 
 theorem inflectedVerbAfterTo_paragraphs_separately (env : Env) (cls : Cls) (P0 D : List Char) (k : Nat)
     (extP extD extPD : Ext) (h : ParagraphPair cls P0 D k extP extD extPD) :
@@ -136,6 +214,12 @@ theorem inflectedVerbAfterTo_paragraphs_separately (env : Env) (cls : Cls) (P0 D
       joinE (P0 ++ List.replicate k '\n').length (docRule cls extP (ruleInflectedVerbAfterTo env) (P0 ++ List.replicate k '\n'))
         (docRule cls extD (ruleInflectedVerbAfterTo env) D) :=
   separately_of_appends _ (inflectedVerbAfterTo_appends env) cls P0 D k extP extD extPD h
+/-- `InflectedVerbAfterTo` fires in both paragraphs: tokens tiling `to agreed.¶¶` (the last one the `ParagraphBreak`) and `to agreed`, the second list moved by 12 — the premises of `Appends` hold -/
+example : (∀ t ∈ [⟨⟨0, 2⟩, .word⟩, ⟨⟨2, 3⟩, .space 1⟩, ⟨⟨3, 9⟩, .word⟩, ⟨⟨9, 10⟩, .punct .Period⟩, ⟨⟨10, 12⟩, .paragraphBreak⟩], tokOK t = true ∧ t.span.stop ≤ 12) ∧
+    (∀ t ∈ [⟨⟨0, 2⟩, .word⟩, ⟨⟨2, 3⟩, .space 1⟩, ⟨⟨3, 9⟩, .word⟩], tokOK t = true) ∧
+    ruleInflectedVerbAfterTo ({ env0 with wordFlags := fun w => if w == ['t', 'o'] then 32769 else if w == ['a', 'g', 'r', 'e', 'e'] then 32896 else if w == ['a', 'g', 'r', 'e'] then 32896 else 0 }) ((['t', 'o', ' ', 'a', 'g', 'r', 'e', 'e', 'd', '.'] ++ ['\n', '\n']) ++ ['t', 'o', ' ', 'a', 'g', 'r', 'e', 'e', 'd'])
+      ([⟨⟨0, 2⟩, .word⟩, ⟨⟨2, 3⟩, .space 1⟩, ⟨⟨3, 9⟩, .word⟩, ⟨⟨9, 10⟩, .punct .Period⟩, ⟨⟨10, 12⟩, .paragraphBreak⟩] ++ shiftDoc 12 5 [⟨⟨0, 2⟩, .word⟩, ⟨⟨2, 3⟩, .space 1⟩, ⟨⟨3, 9⟩, .word⟩]) =
+      .ok [⟨⟨0, 9⟩, [.replaceWith ['t', 'o', ' ', 'a', 'g', 'r', 'e']], 34, 0⟩, ⟨⟨0, 9⟩, [.replaceWith ['t', 'o', ' ', 'a', 'g', 'r', 'e', 'e']], 34, 0⟩, ⟨⟨12, 21⟩, [.replaceWith ['t', 'o', ' ', 'a', 'g', 'r', 'e']], 34, 0⟩, ⟨⟨12, 21⟩, [.replaceWith ['t', 'o', ' ', 'a', 'g', 'r', 'e', 'e']], 34, 0⟩] := by decide
 
 theorem oxfordComma_paragraphs_separately (env : Env) (cls : Cls) (P0 D : List Char) (k : Nat)
     (extP extD extPD : Ext) (h : ParagraphPair cls P0 D k extP extD extPD) :
@@ -143,6 +227,12 @@ theorem oxfordComma_paragraphs_separately (env : Env) (cls : Cls) (P0 D : List C
       joinE (P0 ++ List.replicate k '\n').length (docRule cls extP (ruleOxfordComma env) (P0 ++ List.replicate k '\n'))
         (docRule cls extD (ruleOxfordComma env) D) :=
   separately_of_appends _ (oxfordComma_appends env) cls P0 D k extP extD extPD h
+/-- `OxfordComma` fires in both paragraphs: tokens tiling `so, cat and dog.¶¶` (the last one the `ParagraphBreak`) and `so, cat and dog`, the second list moved by 18 — the premises of `Appends` hold -/
+example : (∀ t ∈ [⟨⟨0, 2⟩, .word⟩, ⟨⟨2, 3⟩, .punct .Comma⟩, ⟨⟨3, 4⟩, .space 1⟩, ⟨⟨4, 7⟩, .word⟩, ⟨⟨7, 8⟩, .space 1⟩, ⟨⟨8, 11⟩, .word⟩, ⟨⟨11, 12⟩, .space 1⟩, ⟨⟨12, 15⟩, .word⟩, ⟨⟨15, 16⟩, .punct .Period⟩, ⟨⟨16, 18⟩, .paragraphBreak⟩], tokOK t = true ∧ t.span.stop ≤ 18) ∧
+    (∀ t ∈ [⟨⟨0, 2⟩, .word⟩, ⟨⟨2, 3⟩, .punct .Comma⟩, ⟨⟨3, 4⟩, .space 1⟩, ⟨⟨4, 7⟩, .word⟩, ⟨⟨7, 8⟩, .space 1⟩, ⟨⟨8, 11⟩, .word⟩, ⟨⟨11, 12⟩, .space 1⟩, ⟨⟨12, 15⟩, .word⟩], tokOK t = true) ∧
+    ruleOxfordComma ({ env0 with wordFlags := fun w => if w == ['s', 'o'] then 32834 else if w == ['c', 'a', 't'] then 32832 else if w == ['d', 'o', 'g'] then 32832 else if w == ['a', 'n', 'd'] then 32770 else 0 }) ((['s', 'o', ',', ' ', 'c', 'a', 't', ' ', 'a', 'n', 'd', ' ', 'd', 'o', 'g', '.'] ++ ['\n', '\n']) ++ ['s', 'o', ',', ' ', 'c', 'a', 't', ' ', 'a', 'n', 'd', ' ', 'd', 'o', 'g'])
+      ([⟨⟨0, 2⟩, .word⟩, ⟨⟨2, 3⟩, .punct .Comma⟩, ⟨⟨3, 4⟩, .space 1⟩, ⟨⟨4, 7⟩, .word⟩, ⟨⟨7, 8⟩, .space 1⟩, ⟨⟨8, 11⟩, .word⟩, ⟨⟨11, 12⟩, .space 1⟩, ⟨⟨12, 15⟩, .word⟩, ⟨⟨15, 16⟩, .punct .Period⟩, ⟨⟨16, 18⟩, .paragraphBreak⟩] ++ shiftDoc 18 10 [⟨⟨0, 2⟩, .word⟩, ⟨⟨2, 3⟩, .punct .Comma⟩, ⟨⟨3, 4⟩, .space 1⟩, ⟨⟨4, 7⟩, .word⟩, ⟨⟨7, 8⟩, .space 1⟩, ⟨⟨8, 11⟩, .word⟩, ⟨⟨11, 12⟩, .space 1⟩, ⟨⟨12, 15⟩, .word⟩]) =
+      .ok [⟨⟨4, 7⟩, [.insertAfter [',']], 29, 0⟩, ⟨⟨22, 25⟩, [.insertAfter [',']], 29, 0⟩] := by decide
 
 theorem noOxfordComma_paragraphs_separately (env : Env) (cls : Cls) (P0 D : List Char) (k : Nat)
     (extP extD extPD : Ext) (h : ParagraphPair cls P0 D k extP extD extPD) :
@@ -150,6 +240,12 @@ theorem noOxfordComma_paragraphs_separately (env : Env) (cls : Cls) (P0 D : List
       joinE (P0 ++ List.replicate k '\n').length (docRule cls extP (ruleNoOxfordComma env) (P0 ++ List.replicate k '\n'))
         (docRule cls extD (ruleNoOxfordComma env) D) :=
   separately_of_appends _ (noOxfordComma_appends env) cls P0 D k extP extD extPD h
+/-- `NoOxfordComma` fires in both paragraphs: tokens tiling `cat, dog, and x.¶¶` (the last one the `ParagraphBreak`) and `cat, dog, and x`, the second list moved by 18 — the premises of `Appends` hold -/
+example : (∀ t ∈ [⟨⟨0, 3⟩, .word⟩, ⟨⟨3, 4⟩, .punct .Comma⟩, ⟨⟨4, 5⟩, .space 1⟩, ⟨⟨5, 8⟩, .word⟩, ⟨⟨8, 9⟩, .punct .Comma⟩, ⟨⟨9, 10⟩, .space 1⟩, ⟨⟨10, 13⟩, .word⟩, ⟨⟨13, 14⟩, .space 1⟩, ⟨⟨14, 16⟩, .word⟩, ⟨⟨16, 18⟩, .paragraphBreak⟩], tokOK t = true ∧ t.span.stop ≤ 18) ∧
+    (∀ t ∈ [⟨⟨0, 3⟩, .word⟩, ⟨⟨3, 4⟩, .punct .Comma⟩, ⟨⟨4, 5⟩, .space 1⟩, ⟨⟨5, 8⟩, .word⟩, ⟨⟨8, 9⟩, .punct .Comma⟩, ⟨⟨9, 10⟩, .space 1⟩, ⟨⟨10, 13⟩, .word⟩, ⟨⟨13, 14⟩, .space 1⟩, ⟨⟨14, 15⟩, .word⟩], tokOK t = true) ∧
+    ruleNoOxfordComma ({ env0 with wordFlags := fun w => if w == ['c', 'a', 't'] then 32832 else if w == ['d', 'o', 'g'] then 32832 else 0 }) ((['c', 'a', 't', ',', ' ', 'd', 'o', 'g', ',', ' ', 'a', 'n', 'd', ' ', 'x', '.'] ++ ['\n', '\n']) ++ ['c', 'a', 't', ',', ' ', 'd', 'o', 'g', ',', ' ', 'a', 'n', 'd', ' ', 'x'])
+      ([⟨⟨0, 3⟩, .word⟩, ⟨⟨3, 4⟩, .punct .Comma⟩, ⟨⟨4, 5⟩, .space 1⟩, ⟨⟨5, 8⟩, .word⟩, ⟨⟨8, 9⟩, .punct .Comma⟩, ⟨⟨9, 10⟩, .space 1⟩, ⟨⟨10, 13⟩, .word⟩, ⟨⟨13, 14⟩, .space 1⟩, ⟨⟨14, 16⟩, .word⟩, ⟨⟨16, 18⟩, .paragraphBreak⟩] ++ shiftDoc 18 10 [⟨⟨0, 3⟩, .word⟩, ⟨⟨3, 4⟩, .punct .Comma⟩, ⟨⟨4, 5⟩, .space 1⟩, ⟨⟨5, 8⟩, .word⟩, ⟨⟨8, 9⟩, .punct .Comma⟩, ⟨⟨9, 10⟩, .space 1⟩, ⟨⟨10, 13⟩, .word⟩, ⟨⟨13, 14⟩, .space 1⟩, ⟨⟨14, 15⟩, .word⟩]) =
+      .ok [⟨⟨8, 9⟩, [.remove], 30, 0⟩, ⟨⟨26, 27⟩, [.remove], 30, 0⟩] := by decide
 
 theorem widelyAccepted_paragraphs_separately_r2 (env : Env) (cls : Cls) (P0 D : List Char) (k : Nat)
     (extP extD extPD : Ext) (h : ParagraphPair cls P0 D k extP extD extPD) :
@@ -157,6 +253,12 @@ theorem widelyAccepted_paragraphs_separately_r2 (env : Env) (cls : Cls) (P0 D : 
       joinE (P0 ++ List.replicate k '\n').length (docRule cls extP (ruleWidelyAccepted env) (P0 ++ List.replicate k '\n'))
         (docRule cls extD (ruleWidelyAccepted env) D) :=
   separately_of_appends _ (widelyAccepted_appends env) cls P0 D k extP extD extPD h
+/-- `WidelyAccepted` fires in both paragraphs: tokens tiling `Wide used.¶¶` (the last one the `ParagraphBreak`) and `Wide used`, the second list moved by 12 — the premises of `Appends` hold -/
+example : (∀ t ∈ [⟨⟨0, 4⟩, .word⟩, ⟨⟨4, 5⟩, .space 1⟩, ⟨⟨5, 9⟩, .word⟩, ⟨⟨9, 10⟩, .punct .Period⟩, ⟨⟨10, 12⟩, .paragraphBreak⟩], tokOK t = true ∧ t.span.stop ≤ 12) ∧
+    (∀ t ∈ [⟨⟨0, 4⟩, .word⟩, ⟨⟨4, 5⟩, .space 1⟩, ⟨⟨5, 9⟩, .word⟩], tokOK t = true) ∧
+    ruleWidelyAccepted (env0) ((['W', 'i', 'd', 'e', ' ', 'u', 's', 'e', 'd', '.'] ++ ['\n', '\n']) ++ ['W', 'i', 'd', 'e', ' ', 'u', 's', 'e', 'd'])
+      ([⟨⟨0, 4⟩, .word⟩, ⟨⟨4, 5⟩, .space 1⟩, ⟨⟨5, 9⟩, .word⟩, ⟨⟨9, 10⟩, .punct .Period⟩, ⟨⟨10, 12⟩, .paragraphBreak⟩] ++ shiftDoc 12 5 [⟨⟨0, 4⟩, .word⟩, ⟨⟨4, 5⟩, .space 1⟩, ⟨⟨5, 9⟩, .word⟩]) =
+      .ok [⟨⟨0, 4⟩, [.replaceWith ['W', 'i', 'd', 'e', 'l', 'y']], 32, 0⟩, ⟨⟨12, 16⟩, [.replaceWith ['W', 'i', 'd', 'e', 'l', 'y']], 32, 0⟩] := by decide
 
 theorem theHowWhy_paragraphs_separately_r2 (env : Env) (cls : Cls) (P0 D : List Char) (k : Nat)
     (extP extD extPD : Ext) (h : ParagraphPair cls P0 D k extP extD extPD) :
@@ -164,6 +266,12 @@ theorem theHowWhy_paragraphs_separately_r2 (env : Env) (cls : Cls) (P0 D : List 
       joinE (P0 ++ List.replicate k '\n').length (docRule cls extP (ruleTheHowWhy env) (P0 ++ List.replicate k '\n'))
         (docRule cls extD (ruleTheHowWhy env) D) :=
   separately_of_appends _ (theHowWhy_appends env) cls P0 D k extP extD extPD h
+/-- `TheHowWhy` fires in both paragraphs: tokens tiling `the  how it.¶¶` (the last one the `ParagraphBreak`) and `the  how it`, the second list moved by 14 — the premises of `Appends` hold -/
+example : (∀ t ∈ [⟨⟨0, 3⟩, .word⟩, ⟨⟨3, 5⟩, .space 2⟩, ⟨⟨5, 8⟩, .word⟩, ⟨⟨8, 9⟩, .space 1⟩, ⟨⟨9, 11⟩, .word⟩, ⟨⟨11, 12⟩, .punct .Period⟩, ⟨⟨12, 14⟩, .paragraphBreak⟩], tokOK t = true ∧ t.span.stop ≤ 14) ∧
+    (∀ t ∈ [⟨⟨0, 3⟩, .word⟩, ⟨⟨3, 5⟩, .space 2⟩, ⟨⟨5, 8⟩, .word⟩, ⟨⟨8, 9⟩, .space 1⟩, ⟨⟨9, 11⟩, .word⟩], tokOK t = true) ∧
+    ruleTheHowWhy (env0) ((['t', 'h', 'e', ' ', ' ', 'h', 'o', 'w', ' ', 'i', 't', '.'] ++ ['\n', '\n']) ++ ['t', 'h', 'e', ' ', ' ', 'h', 'o', 'w', ' ', 'i', 't'])
+      ([⟨⟨0, 3⟩, .word⟩, ⟨⟨3, 5⟩, .space 2⟩, ⟨⟨5, 8⟩, .word⟩, ⟨⟨8, 9⟩, .space 1⟩, ⟨⟨9, 11⟩, .word⟩, ⟨⟨11, 12⟩, .punct .Period⟩, ⟨⟨12, 14⟩, .paragraphBreak⟩] ++ shiftDoc 14 7 [⟨⟨0, 3⟩, .word⟩, ⟨⟨3, 5⟩, .space 2⟩, ⟨⟨5, 8⟩, .word⟩, ⟨⟨8, 9⟩, .space 1⟩, ⟨⟨9, 11⟩, .word⟩]) =
+      .ok [⟨⟨0, 5⟩, [.remove], 33, 0⟩, ⟨⟨14, 19⟩, [.remove], 33, 0⟩] := by decide
 
 /-! ## non-vacuity and counter-examples (kernel-evaluated) -/
 
